@@ -89,6 +89,9 @@ func (c *ClusterNode) RPCSendShard(args *RPCSendShardRequest, reply *RPCSendShar
 		return c.internalRoute("ClusterNode.RPCSendShard", args, reply)
 	}
 	// ---------------------------
+	if err := verifSyncFault("recv", args.ChunkIndex); err != nil {
+		return err
+	}
 	shardPath := filepath.Join(c.cfg.ShardManager.RootDir, USERCOLSDIR, args.UserId, args.CollectionId, args.ShardId, "sharddb.bbolt")
 	if args.ChunkIndex == 0 {
 		if err := os.MkdirAll(filepath.Dir(shardPath), 0755); err != nil {
